@@ -573,16 +573,23 @@ func queryDigest(w *World) string {
 // byte-identical (result, response, events, post-state) to q alone.
 func c18NonInterference(r *Run, state string) {
 	su := c15Build(r, state)
-	w, base, menu := su.w, su.base, su.menu
+	base, menu := su.base, su.menu
 	r.States++
+	// every execution below runs on a FRESH world (fresh keeper objects) loaded with the
+	// state, so that memory retained in a keeper by one execution cannot leak into the
+	// reference of another
+	fresh := func() *World {
+		w := NewWorld(KindDB)
+		w.Load(base)
+		return w
+	}
 	refs := make([]string, len(menu))
 	for i, q := range menu {
-		w.Load(base)
+		w := fresh()
 		o := w.Apply(q)
 		refs[i] = o.Digest() + "|" + HashBytes(w.Dump())
 	}
-	w.Load(base)
-	refQ := queryDigest(w)
+	refQ := queryDigest(fresh())
 	for _, s := range menu {
 		if r.Expired() {
 			r.Truncate("C18 deadline in non-interference @" + state)
@@ -600,7 +607,7 @@ func c18NonInterference(r *Run, state string) {
 			x.Expected, x.Observed = exp, obs
 			return x
 		}
-		w.Load(base)
+		w := fresh()
 		so := w.Simulate(s)
 		r.Transitions++
 		if HashBytes(w.Dump()) != su.baseHash {
@@ -613,7 +620,7 @@ func c18NonInterference(r *Run, state string) {
 		}
 		for qi := range menu {
 			q := menu[qi]
-			w.Load(base)
+			w := fresh()
 			w.Simulate(s)
 			o := w.Apply(q)
 			r.Transitions += 2
